@@ -360,7 +360,7 @@ def sweep_truncations(plan, res, seed, out, deadline):
 
 def sweep_faults(plan, res, seed, out, deadline):
     """Systematic fault points inside one seeded history: re-execute the recorded plan once per
-    (seam step of an op) x (crash before, crash after, EIO, EACCES, torn write at 3 offsets), with
+    (seam step of an op) x (crash before, crash after, EIO, EACCES, KeyboardInterrupt, torn write at 3 offsets), with
     every other decision as recorded.  Everything after the fault, including the epilogue's
     recovery/repair checks, is judged by the same oracle."""
     from . import cacheworld as cw
@@ -384,7 +384,7 @@ def sweep_faults(plan, res, seed, out, deadline):
                 continue
             variants = [[cw.D_CRASH_BEFORE], [cw.D_CRASH_AFTER]]
             if pclass not in ('src', 'other'):
-                variants += [[cw.D_EIO], [cw.D_EACCES]]
+                variants += [[cw.D_EIO], [cw.D_EACCES], [cw.D_INTR]]
             if kind == 'write':
                 variants += [[cw.D_TORN, 0], [cw.D_TORN, 128], [cw.D_TORN, 255]]
             for var in variants:
